@@ -77,6 +77,7 @@ class Sess:
         self.replies = []
         self.pending_lines = []  # [nbytes_remaining, event fields]
         self.last_verb = ""
+        self.active = False  # a transfer worker may exist (150 seen, no completion yet)
 
 
 class CoreDriver:
@@ -118,6 +119,10 @@ class CoreDriver:
         st = self.sess.get(s)
         if st is not None:
             st.replies.append((code, lines))
+            if code == "150":
+                st.active = True
+            elif code in ("226", "200", "425", "451") and st.active and not (code == "200" and st.last_verb != "mlsd"):
+                st.active = False
             if code == "227":
                 m = re.search(r"\((\d+),(\d+),(\d+),(\d+),(\d+),(\d+)\)", lines[-1])
                 if m:
@@ -189,11 +194,13 @@ class CoreDriver:
         elif op == "send":
             s, line = st[1], st[2]
             x = self.sess.get(s)
+            fields = classify_line(line)
             if x is None or x.ctl.transport.is_closing() or x.ctl.eof:
+                ok = False
+            elif x.active and fields["v"] in ("retr", "stor", "appe", "list", "mlsd"):
                 ok = False
             else:
                 raw = (line + "\r\n").encode("utf-8")
-                fields = classify_line(line)
                 x.last_verb = fields["v"]
                 x.pending_lines.append([len(raw), fields])
                 x.ctl.send(raw)
